@@ -154,7 +154,38 @@ async fn scenario(sim: Arc<Sim>, unit: Value) -> Obs {
     macro_rules! viol {
         ($k:expr, $($arg:tt)*) => { o.violations.push(($k.to_string(), format!($($arg)*))) };
     }
-    let ctx = format!("[limit {limit:?}, affinities {:?}, ghost High peer {}]", unit["affinities"], unit["ghost"].as_bool().unwrap_or(false));
+    let ctx = format!("[limit {limit:?}, affinities {:?}, ghost High peer {}{}]", unit["affinities"], unit["ghost"].as_bool().unwrap_or(false), if unit["broken_first"].as_bool().unwrap_or(false) { ", after an arrival that never completed the anemo handshake" } else { "" });
+    // optionally the history starts with an arrival that gets through TLS but never completes the
+    // anemo handshake (a dialer that grants no unidirectional stream and gives up after 400 ms):
+    // it is never established, so it must not count against the limit afterwards
+    let mut _broken_dialer = None;
+    if unit["broken_first"].as_bool().unwrap_or(false) {
+        slot += 1;
+        let target = t_start + slot * 1_000_000 + 300_000;
+        let now = sim.now_us();
+        if target > now {
+            tokio::time::sleep(std::time::Duration::from_micros(target - now)).await;
+        }
+        for d in 0..D {
+            if affs[d] == Aff::High {
+                est.insert(d);
+            }
+        }
+        let mut bc = dc.clone();
+        let mut q = anemo::QuicConfig::default();
+        q.max_concurrent_uni_streams = Some(0);
+        bc.quic = Some(q);
+        bc.connect_timeout_ms = Some(400);
+        let db = sim.start(&NodeSpec::new(30).config(bc)).unwrap();
+        let r = tokio::time::timeout(ms(600), db.connect(l.local_addr())).await;
+        if matches!(r, Ok(Ok(_))) {
+            viol!("setup", "{ctx} the dialer that grants no unidirectional stream completed the handshake");
+        }
+        o.log.push(format!("prelude: an arrival that never completes the anemo handshake: {:?}", r.map(|r| r.map(|_| ()).map_err(|e| e.to_string()))));
+        tokio::time::sleep(ms(100)).await;
+        check_state(&sim, &l, &ds, &ids, &est, "the arrival that never completed its handshake", &ctx, &mut o);
+        _broken_dialer = Some(db);
+    }
     for (step, op) in ops.iter().enumerate() {
         // next slot; the background check(s) in between connect every High-affinity peer
         slot += 1;
@@ -265,7 +296,7 @@ impl Check for C10 {
         CheckMeta {
             property: "C10",
             level: "model_checking",
-            rule: "one listener + 4 dialers (real networks); every history over {arrive(d), listener disconnects d, d leaves, listener dials d explicitly, background tick, set affinity of d0 at runtime} up to the depth, for limit in {none,0,1,2,3} x 6 affinity tables, with and without a High-affinity 'ghost' peer at a black-hole address (a background dial in progress at most arrivals); after every step the listener's and every dialer's listing and every connect result are compared with the reference admission model; states = histories executed, transitions = operations; distinct = distinct outcome shapes".into(),
+            rule: "one listener + 4 dialers (real networks); every history over {arrive(d), listener disconnects d, d leaves, listener dials d explicitly, background tick, set affinity of d0 at runtime} up to the depth, for limit in {none,0,1,2,3} x 6 affinity tables, with and without a High-affinity 'ghost' peer at a black-hole address, and (limit 1, two tables, histories of three operations) after an arrival that gets through TLS but never completes the anemo handshake (a background dial in progress at most arrivals); after every step the listener's and every dialer's listing and every connect result are compared with the reference admission model; states = histories executed, transitions = operations; distinct = distinct outcome shapes".into(),
             assumptions: vec!["arrivals are non-overlapping (150 ms apart), as the property stipulates".into(), "tick jitter pinned to 0 through the jitter hook".into()],
             exhaustive: true,
         }
@@ -279,6 +310,14 @@ impl Check for C10 {
             for lim in &limits {
                 if tier == Tier::Quick && ti >= 4 && lim.map(|l| l != 1).unwrap_or(true) {
                     continue;
+                }
+                // the same histories after an arrival that never completed its handshake
+                if ti < 2 && *lim == Some(1) {
+                    for a in &alpha {
+                        for b in &alpha {
+                            u.push(json!({"limit":lim,"affinities":t,"ghost":false,"broken_first":true,"ops":[op_json(a), op_json(b)],"expand":1}));
+                        }
+                    }
                 }
                 for ghost in [false, true] {
                     // the ghost variant on two tables (quick) / four tables (thorough), finite limits only
